@@ -219,6 +219,12 @@ pub fn run(req: &J) -> J {
       probe_texts.push(format!("{} = 1", n));
       probe_texts.push(format!("{}[1] = 1", n));
       probe_texts.push(format!("{} += 1", n));
+      // op-assignment whose source is another VARIABLE of the same kind and shape (an unaliased copy: n + 0)
+      probe_texts.push(format!("zzk{} := {} + 0", i, n));
+      probe_texts.push(format!("{} += zzk{}", n, i));
+      probe_texts.push(format!("{} -= zzk{}", n, i));
+      probe_texts.push(format!("{} *= zzk{}", n, i));
+      probe_texts.push(format!("{} /= zzk{}", n, i));
       probe_texts.push(format!("(zzd{}, {}) := (1, 2)", i, n));
       // copies last: on the pinned tree a define-from-variable shares storage with its source
       probe_texts.push(format!("zzcopy{} := {}", i, n));
